@@ -88,6 +88,13 @@ func engineEvalTemplate(legacyTemplate string, single bool) *engRes {
 		r.V = types.XTextEmpty
 		return r
 	}
+	return evalInto(r)
+}
+
+// evalMigrated evaluates an already migrated template that has to be exactly one expression.
+func evalMigrated(migrated string) *engRes { return evalInto(&engRes{Migrated: migrated}) }
+
+func evalInto(r *engRes) *engRes {
 	var exprs []string
 	body := false
 	excellent.VisitTemplate(r.Migrated, topLevels, false, func(tt excellent.XTokenType, tok string) error {
@@ -548,24 +555,33 @@ func outerClass(e *E) string {
 	return e.construct()
 }
 
-// signature finds the deepest failing expression of the chain below root and names the cause.
+// signature finds the deepest failing sub-expression of root and names the cause.
 func signature(root *E) (key string, culprit *E, v *verdict) {
-	chain := []*E{root}
-	for {
-		_, ch := nonLeafChild(chain[len(chain)-1])
-		if ch == nil {
-			break
-		}
-		chain = append(chain, ch)
+	// every sub-expression that is not a leaf, in pre-order, with its depth below the root (for the chains
+	// of sub-space (1) this is the chain; the trees of sub-space (4) branch at the middle construct)
+	type node struct {
+		e *E
+		d int
 	}
-	ci := 0
-	for i := len(chain) - 1; i >= 0; i-- {
-		if verdictOf(chain[i]).Fail {
-			ci = i
-			break
+	var nodes []node
+	var walk func(e *E, d int)
+	walk = func(e *E, d int) {
+		if isAtomicLeaf(e) {
+			return
+		}
+		nodes = append(nodes, node{e, d})
+		for _, a := range e.A {
+			walk(a, d+1)
 		}
 	}
-	x := chain[ci]
+	walk(root, 0)
+	x := root
+	best := -1
+	for _, n := range nodes {
+		if n.d > best && verdictOf(n.e).Fail {
+			x, best = n.e, n.d
+		}
+	}
 	v = verdictOf(x)
 	sym := v.Symptom
 	xm := engineEval(x.Text())
@@ -782,10 +798,11 @@ var leadingCall = regexp.MustCompile(`^(\w+)\(`)
 // ---- replay ---------------------------------------------------------------------------------
 
 type replay struct {
-	Kind     string `json:"kind"` // expr | template
-	Expr     *E     `json:"expr,omitempty"`
-	Text     string `json:"text,omitempty"`
-	Template *tcase `json:"template,omitempty"`
+	Kind     string         `json:"kind"` // expr | template | history | rawdates
+	Expr     *E             `json:"expr,omitempty"`
+	Text     string         `json:"text,omitempty"`
+	Template *tcase         `json:"template,omitempty"`
+	History  *historyReplay `json:"history,omitempty"`
 }
 
 func describeExpr(root *E) (string, bool) {
@@ -811,6 +828,14 @@ func replayFn(c *mc.Ctx, raw json.RawMessage) (string, bool) {
 			return "harness: the replayed tree does not print to text the legacy grammar parses back to it", true
 		}
 		return describeExpr(rp.Expr)
+	case "history":
+		return replayHistory(rp.History)
+	case "rawdates":
+		p := rawDatesValueProblem(rp.Expr, migrateUnder("@("+rp.Expr.Text()+")", optRaw))
+		if p == nil {
+			return "@(" + rp.Expr.Text() + ") migrated with RawDates evaluates to what it denotes", false
+		}
+		return p.key + "\n" + p.what, true
 	case "template":
 		p := checkTemplate(rp.Template)
 		if p == nil {
@@ -900,6 +925,10 @@ func run(c *mc.Ctx) {
 	}
 	idx := 0
 	sh := &shaper{}
+	// (0) option space, first: nothing has been migrated in this process yet
+	if !runOptions(c, &idx) {
+		return
+	}
 	// (1) nesting space
 	for depth := 1; depth <= maxDepth; depth++ {
 		for _, t := range resultTypes {
@@ -933,6 +962,48 @@ func run(c *mc.Ctx) {
 				}
 			}
 		}
+	}
+	// (4) flanked operands: depth-3 trees whose middle construct has a function call at both ends.
+	// quick: the representative flank calls, bare, rotation 0. thorough: every call construct as a flank,
+	// bare and parenthesised, rotation 0; the representative flank calls also in the other rotations.
+	stop := false
+	flanked := func(rots []int) func(shape *E) {
+		return func(shape *E) {
+			idx++
+			if stop || !c.Mine(idx) {
+				return
+			}
+			if idx%1024 == 0 && c.Expired() {
+				c.Cap("time budget reached in the flanked-operand space")
+				stop = true
+				return
+			}
+			text0 := fill(shape, 0).Text()
+			var seen []string
+			for _, r := range rots {
+				root := fill(shape, r)
+				text := root.Text()
+				dup := r != 0 && text == text0
+				for _, s := range seen {
+					dup = dup || s == text
+				}
+				seen = append(seen, text)
+				if dup {
+					continue
+				}
+				checkExpr(c, root, "flanked")
+				recordFlankCoverage(c, root)
+			}
+		}
+	}
+	if c.Thorough() {
+		flankedShapes(true, true, flanked([]int{0}))
+		flankedShapes(false, true, flanked([]int{1, 2, 3}))
+	} else {
+		flankedShapes(false, false, flanked([]int{0}))
+	}
+	if stop {
+		return
 	}
 	// (2) string literal forms: every form alone, in every text position of every construct, and
 	// all ordered pairs under & / CONCATENATE / =
@@ -1027,6 +1098,29 @@ func recordCoverage(c *mc.Ctx, root *E, depth int) {
 	}
 }
 
+func recordFlankCoverage(c *mc.Ctx, root *E) {
+	pos, child := nonLeafChild(root)
+	if child == nil {
+		return
+	}
+	inner := child
+	if inner.K == "par" {
+		inner = inner.A[0]
+	}
+	switch root.K {
+	case "call":
+		c.Fact(fmt.Sprintf("flanked:nested:%s:arg%d:%s", root.construct(), pos+1, inner.construct()))
+	case "bin":
+		c.Fact(fmt.Sprintf("flanked:under:%s:%s:%s", root.V, []string{"left", "right"}[pos], inner.construct()))
+	case "neg":
+		c.Fact("flanked:under:neg:" + inner.construct())
+	}
+	m := strings.TrimSuffix(strings.TrimPrefix(engineEval(inner.Text()).Migrated, "@("), ")")
+	if leadingCall.MatchString(m) && strings.HasSuffix(m, ")") && hasTopLevelOperator("@("+m+")") {
+		c.Fact("flanked:migrated-operand-begins-and-ends-with-a-call-around-an-operator")
+	}
+}
+
 func guards(r *mc.Result, tier string) []string {
 	var f []string
 	need := func(cond bool, msg string) {
@@ -1062,6 +1156,26 @@ func guards(r *mc.Result, tier string) []string {
 		}
 	}
 	need(r.Facts["under:=:left:concatenate"] > 0 && r.Facts["under:&:right:sum"] > 0 && r.Facts["under:neg:sum"] > 0, "missing operator/function combinations")
+	// flanked operands
+	need(r.Counters["expressions_flanked"] >= 20000, "fewer than 20000 flanked-operand expressions")
+	for _, fact := range []string{"flanked:under:*:left:sum", "flanked:under:*:right:sum", "flanked:under:^:left:sum", "flanked:under:-:right:sum", "flanked:under:neg:sum",
+		"flanked:under:=:left:concatenate", "flanked:under:&:right:sum", "flanked:nested:power:arg1:add", "flanked:nested:exp:arg1:add", "flanked:nested:right:arg2:add",
+		"flanked:nested:left:arg1:concatenate", "flanked:migrated-operand-begins-and-ends-with-a-call-around-an-operator"} {
+		need(r.Facts[fact] > 0, "never observed: "+fact)
+	}
+	// option space
+	nopt := numOptionSets(tier == "thorough")
+	need(r.Counters["option_cases"] >= 30000, "fewer than 30000 option-space cases")
+	need(r.Counters["expressions_daterefs"] >= 3000, "fewer than 3000 expressions with a legacy date reference")
+	need(r.Counters["option_answers_compared_with_fresh_process"] == int64(nopt)*r.Counters["option_cases"], "not every answer of the option space was compared with a fresh process")
+	for a := 0; a < nopt; a++ {
+		for b := 0; b < nopt; b++ {
+			if a != b {
+				need(r.Facts[fmt.Sprintf("option_order:%s-then-%s", optionSets[a].Name, optionSets[b].Name)] > 0, fmt.Sprintf("no case was asked under %s first and %s second", optionSets[a].Name, optionSets[b].Name))
+			}
+		}
+	}
+	need(r.Facts["raw_dates_changes_the_migration"] > 0, "RawDates never changed a migration")
 	need(len(r.Outcomes) >= 4, "fewer than 4 distinct outcome classes")
 	return f
 }
@@ -1070,18 +1184,25 @@ func init() {
 	mc.Register(&mc.Check{
 		ID:    "C17",
 		Level: "exploration",
-		Rule: fmt.Sprintf("bounded exhaustive enumeration of legacy (Excellent1) expressions, each migrated by the real MigrateTemplate and evaluated by the real engine: (1) every chain of constructs of depth 1..3 "+
+		Rule: fmt.Sprintf("bounded exhaustive enumeration of legacy (Excellent1) expressions, each migrated by the real MigrateTemplate and evaluated by the real engine: "+
+			"(0) option space, run first in each worker process: every expression of (1) of depth 1..2 in every rotation (thorough: also depth 3, rotation 0), every shape of depth 1..2 with each legacy date reference (date.today / tomorrow / yesterday at a date leaf, date.now / date at a datetime leaf) in place of its first such leaf, and 12 identifier templates alone and inside body text, "+
+			"each migrated under every option set {nil, RawDates, URLEncode, DefaultToSelf} (thorough: also the zero value and all three) in an order that cycles through all ordered pairs (first, second) of option sets with the case index, then asked again under the first; every answer is compared with the answer of a fresh process that is only ever asked under that one option set, "+
+			"must parse, and under RawDates must still evaluate to what the legacy expression denotes; the date-reference expressions also get the oracles of (1); "+
+			"(1) every chain of constructs of depth 1..3 "+
 			"(%d typed constructs: function signatures incl. SUM POWER CONCATENATE EXP LEFT RIGHT WORD WORD_SLICE FIELD WEEKDAY DAYS DATE TIME EDATE IF AND OR, the 11 binary operators on numbers / text, unary minus, date and datetime +- number, date + time, datetime +- time) nested at every argument position of every other and on both sides of every operator, bare wherever the legacy grammar parses it as that operand and always also parenthesised, "+
 			"leaves from {2,3,10,contact.age | \"ab c\",\"q\"\"q\",\"w1 w2 w3 w4\",extra.s | TRUE,FALSE | literal dates and times, TODAY(), NOW()} in %d rotations (depth 3: 1 rotation in quick, %d in thorough); (2) %d string-literal forms (doubled quotes, backslashes, trailing backslash) alone, in every text position of every construct and all ordered pairs under & / CONCATENATE / =; "+
-			"(3) templates: %d body texts (incl. @@, e-mail addresses, quotes, parentheses) before, between and after 1-2 of %d expressions. A case is distinct by its text (rotations giving the same text are dropped) and counted in distinct_nontrivial when the legacy grammar (the generated Excellent1 parser) parses it back to the generated tree and at least one oracle (reference model in its domain, or compositionality) decided it.",
+			"(3) templates: %d body texts (incl. @@, e-mail addresses, quotes, parentheses) before, between and after 1-2 of %d expressions; "+
+			"(4) flanked operands: every depth-3 tree O > X > {f, g} in which the middle construct X (every construct with at least two nestable operands: SUM, CONCATENATE, the operators - as POWER's first operand, as a subtrahend ...) has a function call over leaves as its first AND as its last nestable operand (quick: f, g from ABS MAX LEN WEEKDAY YEAR | UPPER LEFT WORD | AND OR | EDATE, all ordered pairs, rotation 0, bare where the legacy grammar allows; thorough: every call construct as f and as g, also parenthesised, rotation 0, and the quick flanks in all rotations) and stands at every operand position of every construct O. A case is distinct by its text (rotations giving the same text are dropped) and counted in distinct_nontrivial when the legacy grammar (the generated Excellent1 parser) parses it back to the generated tree and at least one oracle (reference model in its domain, or compositionality) decided it.",
 			len(constructs), rotations, rotations, len(literalForms), len(bodyTexts), len(templateExprs)),
 		Assumptions: []string{
 			"the legacy denotation is given by Excellent1.g4 (precedence, left associativity, \"\" as the only escape) and Excel-style function semantics, modelled only where uncontroversial (the reference answers out-of-domain elsewhere)",
-			"operands from a fixed alphabet, not all values; nesting depth <= 3 with one nested operand per level",
+			"operands from a fixed alphabet, not all values; nesting depth <= 3 with one nested operand per level (sub-space 4: two nested operands, the outermost ones, at the innermost level)",
+			"option space: a fresh process is the same binary started again (vcheck C17 --single job); it has been asked for other templates under the same option set before, never under another one. With RawDates the time of day that date.tomorrow / date.yesterday carry in their raw form is not judged (date tests compare the date portions only)",
 			"environment: UTC, YYYY-MM-DD, clock pinned to 2020-03-10 14:15:16",
 			"format drift of the platform (TRUE vs true, date rendering) is not judged: values are compared by type class (number / text / boolean / calendar date)",
 		},
 		Run:    run,
+		Single: singleFn,
 		Replay: replayFn,
 		Guards: guards,
 		Budget: map[string]time.Duration{"quick": 4 * time.Minute, "thorough": 20 * time.Minute},
